@@ -109,6 +109,8 @@ class FilterGen:
             sub.max_depth = depth - 1
             filt = sub
         nmax = rng.choice([0, 1, 1, 1, 2, 2, 3])
+        if not use_root and start and not any(isinstance(v, (dict, list)) for v in start) and rng.random() < 0.75:
+            nmax = 0  # scalar candidates: compare / test the candidate itself
         if singular:
             segs = self.singular_segments(start, nmax)
         else:
